@@ -46,13 +46,14 @@ func sweep(a *agg, base uint64, pool []*c14sim.Key, eligible []int, poolPath str
 		fb := pool[kb].OptForms()
 		pr := &pair{a: c14sim.CallSpec{Key: ka, Form: fa[r.Intn(len(fa))]}, b: c14sim.CallSpec{Key: kb, Form: fb[r.Intn(len(fb))]}}
 		if pool[kb].API == "compile" && c14sim.Dump(pool[ka].Params) == c14sim.Dump(pool[kb].Params) && r.Chance(1, 2) {
-			pr.a.Form, pr.a.Shared = "shared", 1
-			pr.b.Form, pr.b.Shared = "shared", 1
+			f := []string{"shared", "sharedopts"}[r.Intn(2)]
+			pr.a.Form, pr.a.Shared = f, 1
+			pr.b.Form, pr.b.Shared = f, 1
 		} else {
-			if pr.a.Form == "shared" {
+			if c14sim.IsSharedForm(pr.a.Form) {
 				pr.a.Shared = 1
 			}
-			if pr.b.Form == "shared" {
+			if c14sim.IsSharedForm(pr.b.Form) {
 				pr.b.Shared = 2
 			}
 		}
